@@ -40,7 +40,10 @@ RULE = ('one PRNG; a case is a random mesh (ring with chords / grid / random con
         'trees, contradictory STRICT lists) are the rejected stream: DisjunctionError. ~22 % of the cases are overlapping '
         'vectors around one shared request with a 1+1 twin in a well-connected mesh (later vectors must stay consistent '
         'with the path already fixed); ~15 % stress the vector bookkeeping: identical requests (aggregation) with equal or '
-        'different partners, vectors repeated 2-7 times with permuted ids. Non-trivial = some vector has a '
+        'different partners, vectors repeated 2-7 times with permuted ids; ~15 % are one vector of 2-3 requests on a '
+        'triangle / square (+ diagonal) / 5-ring where each request has its own STRICT, LOOSE or mixed include list '
+        '(a STRICT detour colliding with the partner\'s only route next to a partner missing only a LOOSE hop), both '
+        'orders inside the vector. Non-trivial = some vector has a '
         'request with at least two candidate paths.')
 MODEL_SCOPE = ('modelled: isdisjoint, the short list of step 1, find_reversed_path (C11), steps 2-5 of '
                'compute_path_dsjctn over candidate indices incl. Python remove-while-iterating semantics and '
@@ -134,8 +137,83 @@ def gen_sync(rng, tier):
     return {'kind': 'disj', 'mesh': mesh, 'reqs': reqs, 'sync': sync, 'via': 'dsjctn' if rng.random() < 0.95 else 'planning'}
 
 
+def gen_strict_loose(rng, tier):
+    """one vector of 2-3 requests on a tiny mesh (triangle, square + diagonal, square, ring of 5) where every request has
+    its own include list with its own hop types: a STRICT detour of one request that collides with the only route left
+    to its partner, next to a partner that merely misses a LOOSE hop - in both orders inside the vector.  A STRICT list
+    is never relaxed: either it is crossed in order by the returned path or the computation stops with an error."""
+    shape = rng.choice(['triangle', 'square+diag', 'square+diag', 'square', 'ring5'])
+    n, pairs = {'triangle': (3, [(0, 1), (1, 2), (0, 2)]),
+                'square+diag': (4, [(0, 1), (1, 2), (2, 3), (0, 3), (0, 2)]),
+                'square': (4, [(0, 1), (1, 2), (2, 3), (0, 3)]),
+                'ring5': (5, [(0, 1), (1, 2), (2, 3), (3, 4), (0, 4)])}[shape]
+    km = lambda: rng.choice([20, 40, 50, 80, 80, 100])          # noqa: E731
+    links = []
+    for a, b in pairs:
+        x = km()
+        links.append([a, b, [x], [x if rng.random() < 0.8 else km()], 'plain'])
+    mesh = {'n': n, 'links': links}
+    k = rng.choice([2, 2, 2, 3])
+    reqs = []
+    for i in range(k):
+        if reqs and rng.random() < 0.5:
+            s, t = reqs[0]['src'][1], reqs[0]['dst'][1]
+            if rng.random() < 0.3:
+                s, t = t, s
+        else:
+            s, t = rng.sample(range(n), 2)
+        inc = []
+        if rng.random() < 0.85:
+            paths = routing.mesh_simple_paths(mesh, s, t, limit=50)
+            r = rng.random()
+            if paths and r < 0.75:
+                p = rng.choice(paths)                       # any route, the long way round included
+                items = []
+                for a, b in zip(p, p[1:]):
+                    items += [['R', a], ['L', a, b, round(rng.random() * 0.999, 3)]]
+                items = items[1:]
+                pos = sorted(rng.sample(range(len(items)), min(rng.choice([1, 1, 2]), len(items))))
+                inc = [items[j] for j in pos]
+            else:
+                inc = [['R', rng.choice([x for x in range(n)])]]
+            kind = rng.choice(['S', 'S', 'L', 'L', 'M'])
+            hops = [S] * len(inc) if kind == 'S' else [L] * len(inc) if kind == 'L' else \
+                [rng.choice([S, L]) for _ in inc]
+            inc = [[it, h] for it, h in zip(inc, hops)]
+        reqs.append({'id': i, 'src': ['T', s], 'dst': ['T', t], 'inc': inc, 'bidir': False, 'mode': 'mode 1'})
+    tri = [(a, m, b) for a in range(n) for m in range(n) for b in range(n) if len({a, m, b}) == 3 and
+           all(tuple(sorted(e)) in pairs for e in ((a, m), (m, b), (a, b)))]
+    if tri and rng.random() < 0.55:
+        # targeted: A goes s -> t (adjacent) and MUST (STRICT) pass the third corner m of a triangle; the partner B lives on
+        # that detour and only has a LOOSE wish, usually one its route does not cross
+        s, m, t = rng.choice(tri)
+        a_inc = [[['R', m], S]]
+        if rng.random() < 0.3:
+            a_inc.insert(rng.choice([0, 1]), [['L', s, m, 0.5] if rng.random() < 0.5 else ['R', s], rng.choice([S, L])])
+        b_ends = rng.choice([(s, m), (m, t), (s, t), (t, s), (m, s), (t, m)])
+        others = [x for x in range(n)]
+        b_inc = [[['R', rng.choice(others)], L]]
+        if rng.random() < 0.3:
+            b_inc.append([['R', rng.choice(others)], L])
+        if rng.random() < 0.15:
+            b_inc = []
+        reqs = [{'id': 0, 'src': ['T', s], 'dst': ['T', t], 'inc': a_inc, 'bidir': False, 'mode': 'mode 1'},
+                {'id': 1, 'src': ['T', b_ends[0]], 'dst': ['T', b_ends[1]], 'inc': b_inc, 'bidir': False,
+                 'mode': 'mode 1'}]
+        if rng.random() < 0.25:
+            c = rng.sample(range(n), 2)
+            reqs.append({'id': 2, 'src': ['T', c[0]], 'dst': ['T', c[1]], 'bidir': False, 'mode': 'mode 1',
+                         'inc': [] if rng.random() < 0.5 else [[['R', rng.choice(others)], rng.choice([S, L])]]})
+        k = len(reqs)
+    order = list(range(k))
+    rng.shuffle(order)
+    return {'kind': 'disj', 'mesh': mesh, 'reqs': reqs, 'sync': [order], 'via': 'dsjctn'}
+
+
 def gen(rng, tier, widen=False):
     r = rng.random()
+    if r > (0.75 if widen else 0.85):
+        return gen_strict_loose(rng, tier)
     if r < (0.4 if widen else 0.2):
         return gen_overlap(rng, tier)
     if r < (0.7 if widen else 0.35):
